@@ -76,8 +76,9 @@ class PointTopology:
         # Mask all zeros
         u = np.ma.where(u == 0, np.ma.masked, u)
 
-        if not start_index:
-            # Subtract 1 to get back to zero-based node identities
-            u -= 1
+        # Subtract 1 to get zero-based node identities, whatever the
+        # start index of the connectivity array (the node identities
+        # are one-based at this point in both cases).
+        u -= 1
 
         return u
